@@ -138,6 +138,12 @@ def absorb (o : Obs) : Ev → Obs
 
 def observe (evs : List Ev) : Obs := evs.foldl absorb {}
 
+theorem foldl_absorb_data (o : Obs) (body : Bytes) :
+    (body.map Ev.data).foldl absorb o = { o with bodyRev := body.reverse ++ o.bodyRev } := by
+  induction body generalizing o with
+  | nil => simp
+  | cons b t ih => simp [absorb, ih]
+
 /-- end of file after the last segment (`_receive_event` + h11's `read_eof` / closed-buffer rules) -/
 def atEof (o : Obs) (s : St) (_buf : Bytes) : Obs :=
   match o.outcome with
